@@ -181,3 +181,75 @@ pub fn sysv_complete<const NB: usize, const NS: usize>(class: Class, absent_quer
     }
 }
 
+
+/// Lean completeness / absent-name checks for the quick tier: ELF32 LE, nbucket = 2, three symbols (index 0 undefined),
+/// two hashed symbols with fixed-length two-byte names over the full non-NUL alphabet.
+fn lean_table(n0: [u8; 2], n1: [u8; 2]) -> ([u8; 28], [u8; 48], [u8; 7]) {
+    let h0 = ref_sysv_hash(&n0);
+    let h1 = ref_sysv_hash(&n1);
+    let strs: [u8; 7] = [0, n0[0], n0[1], 0, n1[0], n1[1], 0];
+    let mut syms = [0u8; 48];
+    put_u32(&mut syms, 16, 1, true);
+    put_u32(&mut syms, 32, 4, true);
+    // nbucket=2, nchain=3 | bucket[0], bucket[1] | chain[0..3]
+    let mut tab = [0u8; 28];
+    put_u32(&mut tab, 0, 2, true);
+    put_u32(&mut tab, 4, 3, true);
+    let b0 = h0 % 2;
+    let b1 = h1 % 2;
+    let head0: u32 = if b0 == 0 { 1 } else if b1 == 0 { 2 } else { 0 };
+    let head1: u32 = if b0 == 1 { 1 } else if b1 == 1 { 2 } else { 0 };
+    put_u32(&mut tab, 8, head0, true);
+    put_u32(&mut tab, 12, head1, true);
+    put_u32(&mut tab, 16, 0, true);
+    put_u32(&mut tab, 20, if b0 == b1 { 2 } else { 0 }, true);
+    put_u32(&mut tab, 24, 0, true);
+    (tab, syms, strs)
+}
+
+#[kani::proof]
+#[kani::unwind(6)]
+pub fn complete_lean_two_byte_names() {
+    let n0: [u8; 2] = kani::any();
+    let n1: [u8; 2] = kani::any();
+    kani::assume(n0[0] != 0 && n0[1] != 0 && n1[0] != 0 && n1[1] != 0);
+    let (tab, syms, strs) = lean_table(n0, n1);
+    let e = AnyEndian::Little;
+    let symtab: SymbolTable<'_, AnyEndian> = ParsingTable::new(e, Class::ELF32, &syms);
+    let strtab = StringTable::new(&strs);
+    let t = SysVHashTable::new(e, Class::ELF32, &tab).unwrap();
+    let second: bool = kani::any();
+    let q = if second { n1 } else { n0 };
+    let same = n0[0] == n1[0] && n0[1] == n1[1];
+    let expect = if second && !same { 2 } else { 1 };
+    match t.find(&q, &symtab, &strtab) {
+        Ok(Some((idx, _))) => {
+            assert!(idx == expect);
+            kani::cover!(second && !same && ref_sysv_hash(&n0) % 2 == ref_sysv_hash(&n1) % 2, "second name found through the chain of a shared bucket");
+        }
+        _ => {
+            assert!(false);
+        }
+    }
+}
+
+#[kani::proof]
+#[kani::unwind(6)]
+pub fn absent_lean_two_byte_names() {
+    let n0: [u8; 2] = kani::any();
+    let n1: [u8; 2] = kani::any();
+    let q: [u8; 2] = kani::any();
+    let ql: usize = kani::any();
+    kani::assume(ql >= 1 && ql <= 2);
+    kani::assume(n0[0] != 0 && n0[1] != 0 && n1[0] != 0 && n1[1] != 0 && q[0] != 0 && q[1] != 0);
+    // the query (1 or 2 bytes) differs from both present names; a 1-byte query may be a proper prefix of a present name
+    kani::assume(ql == 1 || (!(q[0] == n0[0] && q[1] == n0[1]) && !(q[0] == n1[0] && q[1] == n1[1])));
+    let (tab, syms, strs) = lean_table(n0, n1);
+    let e = AnyEndian::Little;
+    let symtab: SymbolTable<'_, AnyEndian> = ParsingTable::new(e, Class::ELF32, &syms);
+    let strtab = StringTable::new(&strs);
+    let t = SysVHashTable::new(e, Class::ELF32, &tab).unwrap();
+    let r = t.find(&q[..ql], &symtab, &strtab);
+    assert!(matches!(r, Ok(None)));
+    kani::cover!(ql == 1 && q[0] == n0[0], "absent name that is a proper prefix of a present one");
+}
